@@ -181,7 +181,9 @@ func (e *Enc) call(site ssa.Instruction, cc *ssa.CallCommon, rt types.Type) Valu
 		return e.callContract(site, key, fc, calleeSSA, calleeObj, args, argTypes, rt)
 	}
 	if ext, ok := e.W.Contracts.Externs[key]; ok {
-		return e.callExtern(site, key, ext, calleeObj, args, argTypes, rt)
+		r := e.callExtern(site, key, ext, calleeObj, args, argTypes, rt)
+		e.afterCallClock(r, rt)
+		return r
 	}
 	kind, ok := defaultExternKind(key)
 	if !ok && e.fc != nil && e.fc.DynNoEffect && (key == "dynamic call" || strings.HasPrefix(key, "dyn:")) {
@@ -194,10 +196,34 @@ func (e *Enc) call(site ssa.Instruction, cc *ssa.CallCommon, rt types.Type) Valu
 	} else {
 		e.assumption("default effect class for " + key + ": " + kind)
 	}
-	return e.callByKind(site, key, kind, args, rt)
+	r := e.callByKind(site, key, kind, args, rt)
+	e.afterCallClock(r, rt)
+	return r
+}
+
+// afterCallClock: the callee may have allocated; whatever it returned exists now.
+func (e *Enc) afterCallClock(res Value, rt types.Type) {
+	h := e.cur.get(clockFam, arrSort(SInt, SInt))
+	nc := e.freshConst("clock", SInt)
+	e.assume(gt(nc, sel(h, intLit(0))), "the callee may allocate")
+	e.cur.set(clockFam, e.define(fmt.Sprintf("%s@c%d", clockFam, e.nextID()), sto(h, intLit(0), nc)))
+	if tv, ok := res.(TupleV); ok {
+		if tt, ok := rt.(*types.Tuple); ok {
+			for i, x := range tv.E {
+				e.assume(e.olderThanNow(x, tt.At(i).Type()), "returned reference exists")
+			}
+		}
+		return
+	}
+	e.assume(e.olderThanNow(res, rt), "returned reference exists")
 }
 
 func (e *Enc) callByKind(site ssa.Instruction, key, kind string, args []Value, rt types.Type) Value {
+	defer func() {
+		if kind == "noeffect" || kind == "havoc" {
+			// results are assumed older than the clock in the callers of callByKind
+		}
+	}()
 	switch kind {
 	case "pure":
 		v := e.pureApp(key, args, rt, e.cur, false)
@@ -405,6 +431,7 @@ func (e *Enc) callContract(site ssa.Instruction, key string, fc *FuncContract, c
 	if fc.Trusted {
 		e.assumption("contract of " + key + " is trusted (body not verified)")
 	}
+	e.afterCallClock(res, rt)
 	return res
 }
 
